@@ -144,3 +144,8 @@ Theorem C09_example_input_met : forall eps, 0 <= eps -> exists eqs,
   build ex_nl ex_dw ex_dh ex_r = Some eqs /\ Forall (met eps (input_env ex_nl)) eqs.
 Proof. exact ex_input_met. Qed.
 Print Assumptions C09_example_input_met.
+
+(* the ratio limit may be given as r or as 1/r, and thin is symmetric in its arguments *)
+Theorem C09_thin_ratio_inverse : forall r, 0 < r -> thinR (1 / r) 1 = thinR r 1.
+Proof. exact thin_ratio_inverse. Qed.
+Print Assumptions C09_thin_ratio_inverse.
